@@ -1,19 +1,20 @@
-\* (i) Bidirectional - behaviour generation by transition coverage: bhist is outside the VIEW,
-\* every transition (state, action) of the state graph prints the shortest history reaching it
+\* (i) Bidirectional - SEEDED FAULT (C02/r4m2, not in the code): the half-close of the destination is skipped unless the
+\* direction ended cleanly.  THIS RUN MUST FAIL with "Invariant BToldSafe is violated": endpoint A fails (reset), direction
+\* A->B ends with a read error, B is never told.
 CONSTANTS
-  MaxSend = @@MAXSEND@@
+  MaxSend = 1
   EofWithData = TRUE
-  ShapesA <- LocalShapes
-  ShapesB <- @@SHAPESB@@
+  ShapesA <- CwLocal
+  ShapesB <- CwShapes
   DevDeadlineAt = "none"
   DevDeadlineHits = {"read"}
   Monitor = FALSE
   IdleMax = 2
   DevMonNoFeed = FALSE
-  Reactive = FALSE
-  DevNoSignalOnError = FALSE
+  Reactive = TRUE
+  DevNoSignalOnError = TRUE
   DevCloseWriterFallback = FALSE
-  Emit = @@EMIT@@
+  Emit = FALSE
   Classes = {1}
   BatchSize = 32
   BatchBuf = 22
@@ -36,6 +37,5 @@ CONSTANTS
   DevDropOnClose = FALSE
 INIT BInit
 NEXT BNext
-VIEW bview
-INVARIANTS BTypeOK BPipe BComplete BReverseKeepsFlowing BNoSpuriousEnd BNoSpuriousWriteEnd BNoDeadline BMonitorOnlyIdle BToldSafe
+INVARIANTS BTypeOK BPipe BComplete BToldSafe
 CHECK_DEADLOCK FALSE
